@@ -14,9 +14,12 @@ def checkPeriodConsistency_raises (du pu : DUnit) (sz : Int) : Bool :=
   if ((sz != (1 : Int))) then true else
   false
 
-/-- NOT TRANSLATED (statement not understood at line 237: sub_periods = period.get_subperiods(variable.definition_period)): falls back to the hand-written model's own decision -/
+/-- 3 guards of `Simulation.calculate_add` (openfisca_core/simulations/simulation.py), first match decides; `true` = raises -/
 def calculateAdd_raises (du pu : DUnit) (sz : Int) : Bool :=
-  OFCore.Tie.addGuards du pu sz
+  if ((decide ((unitWeight du) > (unitWeight pu)))) then true else
+  if ((!((OFCore.Generated.isoformatUnits ++ OFCore.Generated.isocalendarUnits).contains (du).name))) then true else
+  if ((!((OFCore.Generated.isoformatUnits ++ OFCore.Generated.isocalendarUnits).contains (pu).name))) then true else
+  false
 
 /-- 3 guards of `Simulation.calculate_divide` (openfisca_core/simulations/simulation.py), first match decides; `true` = raises -/
 def calculateDivide_raises (du pu : DUnit) (sz : Int) : Bool :=
@@ -96,5 +99,5 @@ def holderSetInput_refuses (du pu : DUnit) (neutralized : Bool) : Bool :=
   if neutralized then false else
   false
 
-def translated : List (String × Bool) := [("checkPeriodConsistency_raises", true), ("calculateAdd_raises", false), ("calculateDivide_raises", true), ("calculateDivide_period", true), ("calculateDivide_denominator", true), ("period_size_in_years", true), ("period_size_in_months", true), ("period_size_in_days", true), ("period_size_in_weeks", true), ("period_size_in_weekdays", true), ("period_get_subperiods", true), ("holderSet_raises", true), ("holderSetInput_refuses", true)]
+def translated : List (String × Bool) := [("checkPeriodConsistency_raises", true), ("calculateAdd_raises", true), ("calculateDivide_raises", true), ("calculateDivide_period", true), ("calculateDivide_denominator", true), ("period_size_in_years", true), ("period_size_in_months", true), ("period_size_in_days", true), ("period_size_in_weeks", true), ("period_size_in_weekdays", true), ("period_get_subperiods", true), ("holderSet_raises", true), ("holderSetInput_refuses", true)]
 end OFCore.Generated.Guards
